@@ -37,3 +37,8 @@ reg('C16', 'exploration', 'X (exhaustive input enumerator, differential)', 'boun
     'Every operator RLBox offers on numeric wrappers is instantiated for every wrapper combination and operand type pair and evaluated on all 65536 value pairs of 8-bit operands and a boundary set otherwise; the wrapped expression must have the documented wrapper type over decltype(plain expression), a bit-identical value and identical operand updates. Undefined plain cases are removed by an exact reference predicate.',
     'Plain C++ semantics are taken from the same compiler; only combinations that compile are compared (per-operator rebuild fallback when a tree stops offering one); floats on finite boundary values only.',
     'DESIGN.md section 3, C16')
+
+reg('C03', 'model_checking', 'H (explicit-state, inductive invariant over all states)', 'explicit-state inductiveness check: all states x all transitions on the real code',
+    'All states (pointee type, address) of a 64 KiB foreign-ABI sandbox plus null are enumerated and every pointer-producing operation is executed from each of them; each successor must be null or inside the own region or the step must abort. All 2^16 guest representations are driven through nine pointer-carrying positions (all 2^32 through the cell position in the thorough tier), plus allocation answers and app pointers, with two instances live.',
+    'Explores a superset of the reachable states (every state satisfying the invariant). Membership is mbox\'s region; production backends with smaller committed memory are represented by the 32-bit instance only.',
+    'DESIGN.md section 3, C03')
